@@ -138,7 +138,10 @@ class RealBook:
         h, c = self.hashes[n], self.content[n]
         with self.loop:
             blob = self.bm.get_blob(h, len(c))
-            writer = blob.get_blob_writer('1.2.3.4', 3333)
+            try:
+                writer = blob.get_blob_writer('1.2.3.4', 3333)
+            except OSError as e:
+                raise Misaligned(f'cannot open a writer for {n}: {e}')
             writer.write(c)
         self._run_to_next_job()          # callbacks ran: the file write is with the executor
 
